@@ -35,11 +35,20 @@ class RefError(Exception):
     pass
 
 
+# the documented block type codes (TDF_DATABLOCK_* constants of the format description) under the names the library's public enum
+# gives them: the reference's own table, so that an exchange of two codes inside the library is not invisible
+TYPE_NAMES = {0: "unusedSlot", 1: "notDefined", 2: "calibrationData", 3: "calibrationData2D", 4: "data2D", 5: "data3D",
+              6: "opticalSystemConfiguration", 7: "forcePlatformsCalibrationData", 8: "forcePlatformsCalibrationData2D",
+              9: "forcePlatformsData", 10: "anthropometricData", 11: "electromyographicData", 12: "forceAndTorqueData",
+              13: "volumetricData", 14: "analogData", 15: "generalCalibrationData", 16: "temporalEventsData"}
+
+
 class Enc:
-    def __init__(self, dc=None):
+    def __init__(self, dc=None, seg_variant=None):
         self.buf = bytearray()
         self.spans = []  # (start, end, class)
         self.dc = dc
+        self.seg_variant = seg_variant   # None = the canonical run table; else a layout-conformant non-canonical one (see vary_runs)
 
     def _add(self, b, cls):
         if cls != "content" or (self.spans and self.spans[-1][2] != "content") or not self.spans:
@@ -155,8 +164,32 @@ def runs_of(frames):
     return out
 
 
+def vary_runs(runs, variant):
+    """other run tables that describe the same present frames: rows in another order and / or maximal runs cut into touching
+    pieces. Row i of the table owns the i-th chunk of samples, so any order is layout-conformant; overlaps are never produced."""
+    if not variant or variant == "canonical":
+        return list(runs)
+    out = list(runs)
+    if "split" in variant:
+        cut = []
+        for s, n in out:
+            if n >= 2:
+                k = max(1, n // 2)
+                cut += [(s, k), (s + k, n - k)]
+            else:
+                cut.append((s, n))
+        out = cut
+    if "reversed" in variant:
+        out = out[::-1]
+    if "rotated" in variant and len(out) > 1:
+        out = out[1:] + out[:1]
+    if "swapped" in variant and len(out) > 1:
+        out[0], out[-1] = out[-1], out[0]
+    return out
+
+
 def _enc_rle(e, frames, per_frame):
-    runs = runs_of(frames)
+    runs = vary_runs(runs_of(frames), getattr(e, "seg_variant", None))
     e.i32(len(runs))
     e.pad(4)
     for s, n in runs:
@@ -475,8 +508,8 @@ DECODERS = {"data3D": dec_data3D, "emg": dec_emg, "force3D": dec_force3D, "platD
             "platCal": dec_platCal, "data2D": dec_data2D, "calib": dec_calib, "optical": dec_optical, "events": dec_events}
 
 
-def encode(spec, dc=None, with_spans=False):
-    e = Enc(dc)
+def encode(spec, dc=None, with_spans=False, seg_variant=None):
+    e = Enc(dc, seg_variant)
     ENCODERS[spec["t"]](e, spec)
     return (bytes(e.buf), e.spans) if with_spans else bytes(e.buf)
 
